@@ -27,6 +27,11 @@ Reading guide (clauses of the property → theorems):
   `merge_no_path_twice`, `merge_terminates` (closed universe of spellings), `merge_terminates_partial`
 * "never reading a file that is not a .dae file or that lies outside the entry configuration
   directory" → `merge_reads_confined`, `confined_means_under`
+* the composition `cmd.readConfig` = merge ; `config.New` ("deterministically", "one-to-one, in order"
+  across files, unknown/missing keys in any file) → `merged_map_one_section_per_name`,
+  `readConfig_independent_of_map_order`, `readConfig_decodes_every_file_in_order`, `readConfig_checks_every_file`
+* the size limit on the PRODUCTION path (after the rule optimizers) → `optimizers_never_enlarge`,
+  `optimizers_never_cause_oversize`, `production_oversize_rejected`
 -/
 namespace DaeVerif.C17.Props
 open DaeVerif.C17
@@ -372,6 +377,40 @@ theorem written_list_replaces_default (S : Schema) (dec : Dec) (n : Nat) (sd : S
       ∃ vs : List (List Char), items.map AItem.paramStr = vs.map some ∧ getStrs st1 (sub path name) = vs :=
   sectionForm_list_replaces_default S dec n sd path name items rest st set f hf hk hns st1 h1
 
+/-- **A written value is what the typed configuration holds.** For any struct at any depth (`global`,
+`dns.routing.request`, a group element …): after a successful `ParamParser`, the field named by the LAST
+`key: value` item of that key holds `FuzzyDecode` of exactly that value when it is a scalar field
+(`writtenLeaf` = `.scalar k (dec k value)`), the raw value when it is a function-or-string field —
+whatever is written before it, whatever other keys follow, whatever the defaults were.  (String lists
+accumulate instead: `written_list_replaces_default`.) -/
+theorem written_value_is_stored (S : Schema) (dec : Dec) (n sid : Nat) (path : Path)
+    (pre post : List AItem) (key val : List Char) (ann : List KV) (st st' : Store)
+    (h : paramParser S dec (n + 1) sid path (pre ++ .str key val ann :: post) st = .ok st')
+    (sd : StructDef) (hsd : S.structs[sid]? = some sd)
+    (f : Field) (hf : findField sd.fields key = some f) (hkind : f.kind ≠ .strList)
+    (hrk : key ≠ rulesKey) (hlast : ∀ it ∈ post, it.key? ≠ some key) :
+    ∃ leaf, writtenLeaf dec f.kind val = some leaf ∧ st'.get? (sub path key) = some leaf :=
+  paramParser_written S dec n sid path pre post key val ann st st' h sd hsd f hf hkind hrk hlast
+
+/-- non-vacuity: `o: 1  o: 2` in a struct whose field `o` defaults to `9`: the field holds `2` -/
+example :
+    let S : Schema := ⟨[⟨[⟨['o'], .scalar 1, some ['9'], false, false⟩], false⟩], []⟩
+    let dec : Dec := fun _ v => some v
+    ∃ st', paramParser S dec 2 0 [['d']] [.str ['o'] ['1'] [], .str ['o'] ['2'] []] [] = .ok st' ∧
+      st'.get? [['d'], ['o']] = some (.scalar 1 ['2']) := by
+  intro S dec
+  have hok : ∃ st', paramParser S dec 2 0 [['d']] [.str ['o'] ['1'] [], .str ['o'] ['2'] []] [] = .ok st' := by
+    simp [S, dec, paramParser, applyDefaults, paramItems, findField, checkRequired, Store.put, Store.get?, sub]
+  obtain ⟨st', h⟩ := hok
+  refine ⟨st', h, ?_⟩
+  obtain ⟨leaf, hl, hg⟩ := written_value_is_stored S dec 1 0 [['d']] [.str ['o'] ['1'] []] [] ['o'] ['2'] [] [] st' h
+    ⟨[⟨['o'], .scalar 1, some ['9'], false, false⟩], false⟩ rfl ⟨['o'], .scalar 1, some ['9'], false, false⟩ rfl
+    (by decide) (by decide) (by simp)
+  simp only [writtenLeaf, dec, Option.map_some, Option.some.injEq] at hl
+  have hp : sub [['d']] ['o'] = [['d'], ['o']] := rfl
+  rw [hp] at hg
+  rw [hg, ← hl]
+
 /-- **Documented defaults are applied — full strength, every field kind.** In the typed
 configuration returned by `config.New`, every field of a top-level struct section (`global`,
 `routing`, `dns`) that carries a `default:` tag and is not written in the configuration holds its
@@ -504,5 +543,130 @@ example :
     compileSize emit true 4 rules = .ok 4 ∧ compileSize emit true 3 rules = .error .oversize ∧
     compileSize emit false 3 rules = .ok 4 ∧ compileSize emit false 2 rules = .error .oversize := by
   refine ⟨?_, ?_, ?_, ?_⟩ <;> rfl
+
+/-! ## 4. The production compositions: `cmd.readConfig`, and the optimizer chain in front of the size limit -/
+
+/-- **One section per name.** Whatever the include graph, the merged map `Merger.Merge` returns has
+every section name exactly once (equal names of all files were merged), which is the precondition
+`config.New` documents. -/
+theorem merged_map_one_section_per_name (K : Classes) (fs : FS) (fuel : Nat) (entry : List Char) (m : SMap)
+    (h : (merge K fs fuel entry).2 = .ok m) : m.names.Nodup := by
+  unfold merge at h
+  exact dfsMerge_names_nodup K fs (dirOf entry) fuel ⟨[], []⟩ (dfsMerge K fs (dirOf entry) fuel ⟨[], []⟩ entry).1 entry m
+    (by rw [← h])
+
+/-- **Deterministically.** `Merger.convertMapToSections` walks a Go map, so the ORDER of the sections
+handed to `config.New` is unspecified.  It cannot matter: for every ordering `ss'` of the merged
+sections, `config.New` returns the same typed configuration or the same error. -/
+theorem readConfig_independent_of_map_order (K : Classes) (fs : FS) (S : Schema) (dec : Dec) (mfuel cfuel : Nat)
+    (entry : List Char) (m : SMap) (hm : (merge K fs mfuel entry).2 = .ok m) (ss' : List ASection)
+    (hp : (sectionsOf m).Perm ss') :
+    configNew S dec cfuel ss' = configNew S dec cfuel (sectionsOf m) :=
+  (configNew_perm S dec cfuel (sectionsOf m) ss' hp
+    (by rw [sectionsOf_names]; exact merged_map_one_section_per_name K fs mfuel entry m hm)).symm
+
+/-- **What `config.New` decodes after a merge** (`cmd.readConfig`): for every section name, the items
+it decodes are the including file's own items followed by the merged items of every included file
+in listed order, depth first — nothing of any file is dropped, nothing is reordered. -/
+theorem readConfig_decodes_every_file_in_order (K : Classes) (fs : FS) (dir : List Char) (n : Nat) (st st' : MState)
+    (entry : List Char) (m : SMap) (h : dfsMerge K fs dir (n + 1) st entry = (st', .ok m)) :
+    ∃ st1 own pats children ms,
+      readEntry K fs dir st entry = (st1, .ok own) ∧
+      includePatterns dir (own.get "include".toList) = .ok pats ∧
+      unsqueeze fs pats = .ok children ∧
+      ChildMaps K fs dir n st1 children ms ∧
+      ∀ name, itemsOf (sectionsOf m) name = own.get name ++ ms.flatMap (fun mc => mc.getAll name) := by
+  obtain ⟨st1, own, pats, children, ms, h1, h2, h3, h4, h5⟩ := dfsMerge_order K fs dir n st st' entry m h
+  refine ⟨st1, own, pats, children, ms, h1, h2, h3, h4, ?_⟩
+  intro name
+  rw [itemsOf_sectionsOf m (dfsMerge_names_nodup K fs dir (n + 1) st st' entry m h) name]
+  exact h5 name
+
+/-- **An unknown key or a missing required key in ANY file is an error of `readConfig`**: if
+`readConfig` succeeds then, for every top-level struct section, every item filed under its name in
+the merged map — from whichever file it came — is admissible for that struct, and every `required`
+key is written in some file. -/
+theorem readConfig_checks_every_file (K : Classes) (fs : FS) (S : Schema) (dec : Dec) (mfuel cfuel : Nat)
+    (entry : List Char) (st : Store) (h : readConfig K fs S dec mfuel cfuel entry = .ok st)
+    (sp : SectionSpec) (hsp : sp ∈ S.specs) (sid : Nat) (hkind : sp.kind = .struct sid) :
+    ∃ m sd, (merge K fs mfuel entry).2 = .ok m ∧ S.structs[sid]? = some sd ∧
+      (∀ it ∈ m.get sp.name, itemAdmissible sd it) ∧
+      (∀ f ∈ sd.fields, f.required = true → ∃ it ∈ m.get sp.name, it.key? = some f.key) := by
+  unfold readConfig at h
+  split at h
+  · simp at h
+  · rename_i m hm
+    split at h
+    · simp at h
+    · rename_i st0 hnew
+      obtain ⟨sd, hsd, hadm, hreq⟩ := unknown_and_missing_keys_rejected S dec cfuel (sectionsOf m) st0 hnew sp hsp sid hkind
+      have hnd := merged_map_one_section_per_name K fs mfuel entry m hm
+      rw [itemsOf_sectionsOf m hnd] at hadm hreq
+      exact ⟨m, sd, hm, hsd, hadm, hreq⟩
+
+/-- non-vacuity: a one-file tree (an empty, well-protected `/e/c.dae`) and the miniature schema of the
+defaults example; `readConfig` accepts it -/
+example :
+    let fs : FS := { stat := fun p => if p = "/e/c.dae".toList then some ⟨false, 0o600, []⟩ else none,
+                     glob := fun _ => some [] }
+    let S : Schema := ⟨[⟨[⟨['o'], .scalar 1, some ['1'], false, false⟩], false⟩,
+                        ⟨[⟨"fallback".toList, .iface, some ['x'], false, false⟩], true⟩],
+                       [⟨['d'], false, .struct 0⟩, ⟨"routing".toList, false, .struct 1⟩]⟩
+    let dec : Dec := fun _ v => some v
+    ∃ st, readConfig stdK fs S dec 2 4 "/e/c.dae".toList = .ok st := by
+  intro fs S dec
+  have hm := merge_empty_file stdK fs "/e/c.dae".toList 1 (by decide) (by decide) (by simp [fs])
+  have hok : ∃ st, configNew S dec 4 [] = .ok st := by
+    simp [S, dec, configNew, decodeSpecs, lookupSection, sectionParser, paramParser, applyDefaults, paramItems,
+      checkRequired, applyPatches, patchMustFallback, patchMustRules, patchEmptyDns, patchHttp, putIfAbsent,
+      Store.get?, Store.put, sub, pReqFallback, pRespFallback, pRules,
+      pFallback, kindAddrPort, kindHttpMethod, hasPrefixC, List.isPrefixOf]
+  obtain ⟨st, hst⟩ := hok
+  refine ⟨st, ?_⟩
+  unfold readConfig
+  rw [hm]
+  simp only [sectionsOf, List.map_nil, hst]
+
+/-- **The optimizers never enlarge a program.** `routing.NewNormalizedProgram` runs the alias stage,
+merges adjacent single-condition rules and removes repeated parameters before the program is
+lowered.  If the program after the alias stage lowers to `k` match sets, the optimized program
+lowers too (no new error), to at most `k`. -/
+theorem optimizers_never_enlarge (emit : List Char → Option Emit) (withAlias : Bool) (rules : List Rule)
+    (k : Nat) (ds : List Nat) (h : lowerRules emit (if withAlias then aliasRules rules else rules) 0 = .ok (k, ds)) :
+    ∃ k' ds', k' ≤ k ∧ lowerRules emit (optimizeRules withAlias rules) 0 = .ok (k', ds') ∧ ∀ d ∈ ds', d < k' := by
+  obtain ⟨a, ha, hk, _⟩ := lowerRules_sets emit _ 0 k ds h
+  obtain ⟨b, hb, hopt⟩ := optimize_sets_le emit withAlias rules a ha
+  obtain ⟨ds', hl'⟩ := lowerRules_of_sets emit _ 0 b hopt
+  obtain ⟨_, _, _, hds'⟩ := lowerRules_sets emit _ 0 _ ds' hl'
+  exact ⟨0 + b, ds', by omega, hl', fun d hd => (hds' d hd).2⟩
+
+/-- **… so they never push a program over the limit**: a traffic program that fits the match-set
+table as written (after the alias stage) is still accepted after merging and de-duplication, with
+at most as many match sets.  (Only programs beyond the supported size are rejected for their size.) -/
+theorem optimizers_never_cause_oversize (emit : List Char → Option Emit) (maxLen : Nat) (withAlias : Bool)
+    (rules : List Rule) (n : Nat)
+    (h : compileSize emit true maxLen (if withAlias then aliasRules rules else rules) = .ok n) :
+    ∃ n', n' ≤ n ∧ compileSize emit true maxLen (optimizeRules withAlias rules) = .ok n' :=
+  compileSize_optimized emit maxLen withAlias rules n h
+
+/-- **The production path rejects what is too large AFTER the optimizers** (the program the daemon
+would load): more than `maxLen` match sets, fallback included, is a build error. -/
+theorem production_oversize_rejected (maxLen : Nat) (rules : List Rule) (k : Nat) (ds : List Nat)
+    (hl : lowerRules routingEmit (optimizeRules true rules) 0 = .ok (k, ds)) (hbig : maxLen < k + 1) :
+    compileRouting maxLen rules = .error .oversize :=
+  oversize_rejected routingEmit maxLen _ k ds hl hbig
+
+/-- non-vacuity: `dport(80) -> direct`, `dport(80) -> direct`, `dport(443) -> direct`: three sets
+and the fallback as written (too many for a table of 3), one rule with two values after the
+optimizers (accepted); two negated rules are not merged -/
+example :
+    let p : List Char → Rule := fun v => ([⟨"dport".toList, false, [⟨[], v⟩]⟩], ⟨"direct".toList, false, []⟩)
+    let q : List Char → Rule := fun v => ([⟨"dport".toList, true, [⟨[], v⟩]⟩], ⟨"direct".toList, false, []⟩)
+    let rules := [p "80".toList, p "80".toList, p "443".toList]
+    compileSize routingEmit true 3 (aliasRules rules) = .error .oversize ∧ compileRouting 3 rules = .ok 3 ∧
+    compileSize routingEmit true 4 (aliasRules rules) = .ok 4 ∧ compileRouting 4 rules = .ok 3 ∧
+    compileRouting 4 [q "80".toList, q "443".toList] = .ok 3 ∧ compileRouting 2 [q "80".toList, q "443".toList] = .error .oversize := by
+  intro p q rules
+  refine ⟨?_, ?_, ?_, ?_, ?_, ?_⟩ <;> rfl
 
 end DaeVerif.C17.Props
